@@ -172,8 +172,13 @@ UNALLOCATED_SUBCLUSTER_TYPES = (
 
 
 def ctz(value: int, size: int = 32) -> int:
-    """Count the number of zero bits in an integer of a given size."""
+    """Count the number of trailing zero bits in an integer of a given size, ``size`` if there are none set."""
     for i in range(size):
         if value & (1 << i):
             return i
-    return 0
+    return size
+
+
+def cto(value: int, size: int = 32) -> int:
+    """Count the number of trailing one bits in an integer of a given size."""
+    return ctz(~value & ((1 << size) - 1), size)
